@@ -8,7 +8,9 @@ import (
 	"net/http"
 	"runtime/debug"
 	"strings"
+	"sync"
 	"testing"
+	"time"
 
 	pintro "github.com/buildbuildio/pebbles/introspection"
 	"github.com/buildbuildio/pebbles/queryer"
@@ -31,12 +33,23 @@ type IntrospectCase struct {
 	Ops []ServiceOp `json:"ops,omitempty"`
 	// EmptyErrors: the services add "errors": [] to their (successful) answers
 	EmptyErrors bool `json:"empty_errors,omitempty"`
+	// SameHost: the services live at different paths of one host (http://intro.test/s<i>/graphql)
+	SameHost bool `json:"same_host,omitempty"`
+	// SlowUS: every answer takes this long, so that the parallel introspection requests overlap
+	SlowUS int `json:"slow_us,omitempty"`
+	// FailService answers its first FailCount requests with status 503 (a service that is just starting); -1 = none
+	FailService int `json:"fail_service"`
+	FailCount   int `json:"fail_count,omitempty"`
 }
 
 // specResponder answers whatever introspection operation it is sent, per the spec.
 type specResponder struct {
 	schemas map[string]*ast.Schema
 	queries int
+	slow    time.Duration
+	failURL string
+	failN   int
+	mu      sync.Mutex
 }
 
 func (sr *specResponder) RoundTrip(req *http.Request) (*http.Response, error) {
@@ -46,6 +59,20 @@ func (sr *specResponder) RoundTrip(req *http.Request) (*http.Response, error) {
 	if schema == nil {
 		return nil, fmt.Errorf("no service at %s", req.URL)
 	}
+	if sr.slow > 0 {
+		time.Sleep(sr.slow)
+	}
+	sr.mu.Lock()
+	fail := req.URL.String() == sr.failURL && sr.failN > 0
+	if fail {
+		sr.failN--
+	}
+	sr.mu.Unlock()
+	if fail {
+		return jsonResp(503, []byte("service unavailable")), nil
+	}
+	sr.mu.Lock()
+	defer sr.mu.Unlock()
 	var reqs []rawGQL
 	if err := json.Unmarshal(body, &reqs); err != nil {
 		return jsonResp(400, []byte(`{"errors":[{"message":"bad request"}]}`)), nil
@@ -96,7 +123,7 @@ func c15Facts(s *ast.Schema) map[string]bool {
 func checkC15(c *IntrospectCase) *ev.Failure {
 	emptyErrorsKey = c.EmptyErrors
 	defer func() { emptyErrorsKey = false }()
-	sr := &specResponder{schemas: map[string]*ast.Schema{}}
+	sr := &specResponder{schemas: map[string]*ast.Schema{}, slow: time.Duration(c.SlowUS) * time.Microsecond}
 	var urls []string
 	var sources []*ast.Schema
 	for i, sdl := range c.SDLs {
@@ -105,6 +132,12 @@ func checkC15(c *IntrospectCase) *ev.Failure {
 			return ev.Failf("harness", "generated SDL does not load: %v\n%s", err, sdl)
 		}
 		u := fmt.Sprintf("http://intro-%d.test/graphql", i)
+		if c.SameHost {
+			u = fmt.Sprintf("http://intro.test/s%d/graphql", i)
+		}
+		if i == c.FailService && c.FailCount > 0 {
+			sr.failURL, sr.failN = u, c.FailCount
+		}
 		urls = append(urls, u)
 		sources = append(sources, s)
 		sr.schemas[u] = s
@@ -133,6 +166,9 @@ func checkC15(c *IntrospectCase) *ev.Failure {
 		}
 	}
 	if ierr != nil {
+		if c.FailCount > 0 && c.FailService >= 0 && c.FailService < len(c.SDLs) {
+			return nil // a service that answers 503 may fail the start-up; what must not happen is a wrong schema for a url
+		}
 		if deep {
 			return nil // a schema that cannot be reconstructed is reported as a start-up error: allowed for this class only
 		}
@@ -174,11 +210,21 @@ func c15GateFor(fact string) string { return "remote." + fact }
 
 func TestC15(t *testing.T) {
 	rec := ev.Get("C15")
-	rec.Rule = "1..3 generated schemas (every type kind, wrappers up to 4 levels, argument/input/directive defaults of every value kind, descriptions, deprecations, directive definitions, interface inheritance, custom root names; labelled class with wrappers deeper than the introspection query) served by a spec-compliant responder behind the real MultiOpQueryer and ParallelRemoteSchemaIntrospector; oracle: bidirectional equality of schema facts incl. descriptions, deprecations, defaults, roots; same validation verdict for generated valid and single-edit invalid operations; non-trivial = a schema using >=3 of {arg default, input default, nested wrappers, directive with args, deprecation, interface, union, custom scalar}; distinct by hash(SDLs)"
+	rec.Rule = "1..3 generated schemas (every type kind, wrappers up to 4 levels, argument/input/directive defaults of every value kind, descriptions, deprecations, directive definitions, interface inheritance, custom root names; labelled class with wrappers deeper than the introspection query) served by a spec-compliant responder behind the real MultiOpQueryer and ParallelRemoteSchemaIntrospector, optionally all at one host under different paths, with answers that take 0.2-3 ms (overlapping), and with one service answering its first 1-2 requests with 503 (then a start-up error is accepted, a schema paired with the wrong url is not); oracle: bidirectional equality of schema facts incl. descriptions, deprecations, defaults, roots; same validation verdict for generated valid and single-edit invalid operations; non-trivial = a schema using >=3 of {arg default, input default, nested wrappers, directive with args, deprecation, interface, union, custom scalar}; distinct by hash(SDLs)"
 	defer census.dump("C15")
 	rapid.Check(t, func(t *rapid.T) {
 		n := rapid.SampledFrom([]int{1, 1, 1, 2, 3}).Draw(t, "nschemas")
-		c := &IntrospectCase{EmptyErrors: rapid.IntRange(0, 3).Draw(t, "emptyerrors") == 0}
+		c := &IntrospectCase{EmptyErrors: rapid.IntRange(0, 3).Draw(t, "emptyerrors") == 0, FailService: -1}
+		if n > 1 {
+			c.SameHost = rapid.IntRange(0, 2).Draw(t, "samehost") == 0
+			if rapid.IntRange(0, 2).Draw(t, "slow") == 0 {
+				c.SlowUS = rapid.IntRange(200, 3000).Draw(t, "slowus")
+			}
+			if rapid.IntRange(0, 3).Draw(t, "transient") == 0 {
+				c.FailService = rapid.IntRange(0, n-1).Draw(t, "failsvc")
+				c.FailCount = rapid.IntRange(1, 2).Draw(t, "failcount")
+			}
+		}
 		o := sdlgen.DefaultOptions()
 		o.DeepWrappers = rapid.IntRange(0, 9).Draw(t, "deep") == 0
 		// closed gates of open findings switch generator features off (counted by the classifier below)
